@@ -272,14 +272,21 @@ fn class_completion_case(rng: &mut Rng, ctx: &mut Ctx) {
     let target = classes[rng.below(classes.len())].0.clone();
     let prefix_len = rng.range(1, target.len());
     let variant = rng.below(7);
+    // defs and classes live in separate namespaces: a def may carry the name of a class (its own parent, even)
+    let def_name = if matches!(variant, 2 | 5) && rng.chance(1, 2) {
+        ctx.feature("parent_position:def-named-like-a-class");
+        if rng.chance(1, 2) { target.clone() } else { classes[rng.below(classes.len())].0.clone() }
+    } else {
+        "q".to_string()
+    };
     let head = match variant {
         0 => "class Q : ".to_string(),
         1 => format!("class Q : {}, ", classes[0].0),
-        2 => "def q : ".to_string(),
+        2 => format!("def {} : ", def_name),
         // a defm may name ordinary classes after its multiclass(es)
         3 => "defm dm : NotAClassEither, ".to_string(),
         4 => "foreach i = [1, 2] in defm dm#i : NotAClassEither, ".to_string(),
-        5 => "let f = 1 in def q : ".to_string(),
+        5 => format!("let f = 1 in def {} : ", def_name),
         _ => "multiclass Outer { defm inner : NotAClassEither, ".to_string(),
     };
     ctx.feature(&format!("parent_position:{}", ["class", "class-second", "def", "defm-after-multiclass", "defm-in-foreach", "def-in-let", "defm-in-multiclass"][variant]));
@@ -434,10 +441,10 @@ impl Check for C20 {
         }
     }
     fn rule(&self) -> String {
-        "EXHAUSTIVE over the finite vocabularies: every item Analysis::completion offers at 6 keyword/type/value fixtures and 3 '!'-trigger fixtures is lexed by the server's Lexer and must be exactly one token of the keyword / type / operator kind an independent name table assigns (c14.rs tables); every file-level keyword must start a minimal statement of the documented grammar that syntax::parse accepts with zero errors; every offered type must be accepted in a field declaration; for every candidate operator name (the reference's 52 names + known variants + everything offered) that the Lexer classifies as a bang/cond operator, the name must be among the operators offered after '!'. SAMPLED: random workspaces (root + optional include) declaring 1-9 classes of arity 0-3 (parameters with and without defaults: literals, `?`, operator expressions with and without an inferable type) plus a def and a multiclass; completion at a parent-class position (class and def parents, first and later parent, a def under `let`, the class positions of a defm parent list after its multiclass - at file level, under foreach and inside a multiclass -, statement closed or still being typed, prefix of every length) must offer exactly the workspace's classes, each with one snippet placeholder per template parameter. non-trivial = each (fixture, offered item) pair and each class-completion workspace; distinct by digest".into()
+        "EXHAUSTIVE over the finite vocabularies: every item Analysis::completion offers at 6 keyword/type/value fixtures and 3 '!'-trigger fixtures is lexed by the server's Lexer and must be exactly one token of the keyword / type / operator kind an independent name table assigns (c14.rs tables); every file-level keyword must start a minimal statement of the documented grammar that syntax::parse accepts with zero errors; every offered type must be accepted in a field declaration; for every candidate operator name (the reference's 52 names + known variants + everything offered) that the Lexer classifies as a bang/cond operator, the name must be among the operators offered after '!'. SAMPLED: random workspaces (root + optional include) declaring 1-9 classes of arity 0-3 (parameters with and without defaults: literals, `?`, operator expressions with and without an inferable type) plus a def and a multiclass; completion at a parent-class position (class and def parents, first and later parent, a def under `let`, a def that carries the name of a class of the workspace - its own parent or another -, the class positions of a defm parent list after its multiclass - at file level, under foreach and inside a multiclass -, statement closed or still being typed, prefix of every length) must offer exactly the workspace's classes, each with one snippet placeholder per template parameter. non-trivial = each (fixture, offered item) pair and each class-completion workspace; distinct by digest".into()
     }
     fn floors(&self, tier: Tier) -> Vec<(&'static str, u64)> {
-        vec![("vocabulary_unit", 1), ("vocabulary_items", 30), ("operator_items", 100), ("lexer_accepted_operators", 150), ("toplevel_statements_parsed", 20), ("class_completion_cases", tier.pick(3500, 60_000)), ("class_completion_with_include", 300), ("arity:3", 100), ("parent_position:defm-after-multiclass", 100), ("parent_position:defm-in-multiclass", 100), ("parent_position:def-in-let", 100), ("class_completion_on_the_wire", 500), ("multiclass_with_parameters_after_classes", 500)]
+        vec![("vocabulary_unit", 1), ("vocabulary_items", 30), ("operator_items", 100), ("lexer_accepted_operators", 150), ("toplevel_statements_parsed", 20), ("class_completion_cases", tier.pick(3500, 60_000)), ("class_completion_with_include", 300), ("arity:3", 100), ("parent_position:defm-after-multiclass", 100), ("parent_position:defm-in-multiclass", 100), ("parent_position:def-in-let", 100), ("parent_position:def-named-like-a-class", 100), ("class_completion_on_the_wire", 500), ("multiclass_with_parameters_after_classes", 500)]
     }
     fn exhaustive(&self, _tier: Tier) -> Option<String> {
         Some("the completion vocabularies at the 9 fixtures x the lexer's keyword and operator tables (finite)".into())
